@@ -214,8 +214,11 @@ def judge(text, cp, outcome):
     elif L < 1:
       viol.append((f"error line outside the file: [{name}] at line {'0' if L == 0 else '<0'}",
                    {"message": msg[:200], "line": L, "lines": n}))
-    elif L > n + 1:
-      viol.append((f"error line outside the file: [{name}] beyond EOF+1",
+    elif L > n + (1 if name == "python-compiler-error" else 0):
+      # EOF+1 is tolerated for compiler errors only (CPython itself blames that line for some
+      # of them); an analysis error has no business past the last line
+      where = "beyond EOF+1" if L > n + 1 else "at EOF+1 (one past the last line)"
+      viol.append((f"error line outside the file: [{name}] {where}",
                    {"message": msg[:200], "line": L, "lines": n}))
   return viol, True
 
@@ -242,6 +245,35 @@ def _install_opcode_recorder():
   cls.run_instruction = run_instruction
 
 
+_TAIL_BODIES = [
+    "    if {p}:\n        return {v}",
+    "    for _i in {p}:\n        return {v}",
+    "    while {p}:\n        return {v}",
+    "    with {p}:\n        if {p}:\n            return {v}",
+    "    try:\n        return {v}\n    except ValueError:\n        pass",
+    "    if {p}:\n        return {v}\n    elif {p} is None:\n        {p}()",
+    "    {p}()",
+    "    match {p}:\n        case 1:\n            return {v}",
+]
+_TAIL_RET = [("int", "1"), ("str", "'s'"), ("List[int]", "[1]"), ("bool", "True"), ("'Point'", "Point()")]
+
+
+def trailing_function(rng, method=None):
+  """A function with a non-None return annotation that falls off its end - as the LAST thing of a
+  file: pytype re-homes the bad-return-type of the implicit `return None` to the function's last
+  line, which is then the last line of the file."""
+  ann, val = rng.choice(_TAIL_RET)
+  body = rng.choice(_TAIL_BODIES).format(p="flag", v=val)
+  method = rng.random() < 0.3 if method is None else method
+  if method:
+    body = "\n".join("    " + l for l in body.split("\n"))
+    src = f"class _Tail:\n    def pick(self, flag) -> {ann}:\n{body}"
+  else:
+    pre = "async " if rng.random() < 0.15 else ""
+    src = f"{pre}def _tail_pick(flag) -> {ann}:\n{body}"
+  return src + rng.choice(["", "\n", "\n", "\n\n", "  # end"])
+
+
 def make_text(item):
   """Deterministically produces (text, label) for an item description."""
   from vf.gen import hostile_programs as hp
@@ -249,7 +281,16 @@ def make_text(item):
   if k == "text":
     return item["text"], "literal"
   if k == "hostile":
-    return hp.generate(random.Random(f"C15-h-{item['seed']}")), "hostile"
+    src = hp.generate(random.Random(f"C15-h-{item['seed']}"))
+    tr = random.Random(f"C15-tail-{item['seed']}")
+    if tr.random() < 0.35:      # separate stream: the generated program itself is unchanged
+      return src.rstrip("\n") + "\n" + trailing_function(tr), "hostile+trailing-fallthrough"
+    return src, "hostile"
+  if k == "tail":
+    tr = random.Random(f"C15-tailonly-{item['seed']}")
+    head = tr.choice(["", "from typing import List\n", "from typing import List\nclass Point: pass\n\n",
+                      "x = 1\n\n\n"])
+    return head + trailing_function(tr), "trailing-fallthrough"
   if k == "hostile-mutant":
     base = hp.generate(random.Random(f"C15-h-{item['seed']}"))
     mut, mk = hp.mutate(random.Random(f"C15-m-{item['seed']}-{item['mseed']}"), base)
@@ -507,11 +548,17 @@ def build_items(tier, seed):
   for p in chosen:
     items.append({"id": "c-" + os.path.relpath(p, STDLIB), "kind": "corpus", "path": p,
                   "opts": {}})
+  for i in range(24 if tier == "quick" else 200):
+    items.append({"id": f"tail{i}", "kind": "tail", "seed": rng.randrange(1 << 30), "opts": opts()})
   # fixed regression seeds of the property's corner cases
   for i, t in enumerate(["x = 1\ny = '\0'\n", "", "\n\n", "x = (\n", "def f(:\n", "def f():\n",
                          "if 1:\n\tx = 1\n        y = 2\n", "return\n", "x = 1\r\ny = )\r\n",
                          "def f():\n    x: int; y = 1\n    return y\n", "\x0c\nx = )\n",
-                         "class A:\n  def f(self):\n    nonlocal q\n", "x = '''\n", "f'{'\n", "1 +\n"]
+                         "class A:\n  def f(self):\n    nonlocal q\n", "x = '''\n", "f'{'\n", "1 +\n",
+                         "def pick(flag) -> int:\n    if flag:\n        return 1",
+                         "def pick(flag) -> int:\n    if flag:\n        return 1\n",
+                         "def pick(flag) -> str:\n    for i in flag:\n        return 's'\n",
+                         "class K:\n    def m(self, flag) -> int:\n        with flag:\n            if flag:\n                return 1"]
                         + KNOWN_REPRODUCERS):
     o = {}
     if isinstance(t, tuple):
@@ -545,7 +592,7 @@ def make_tasks(items, tier, run_id, round_no=0, asan_fraction=0.05):
   rng = random.Random(f"C15-tasks-{run_id}-{round_no}")
   watchdog = 60 if tier == "quick" else 300
   n_asan = max(2, int(len(items) * asan_fraction)) if round_no == 0 else 0
-  asan_items = [it for it in items if it["kind"] in ("hostile", "hostile-mutant", "text")
+  asan_items = [it for it in items if it["kind"] in ("hostile", "hostile-mutant", "text", "tail")
                 and "python_version" not in (it.get("opts") or {})][:n_asan]
   asan_ids = {it["id"] for it in asan_items}
   plain_items = [it for it in items if it["id"] not in asan_ids]
